@@ -6,46 +6,121 @@ from vlib import core
 TRUST = ("Lean 4.33 kernel; axioms at most propext/Classical.choice/Quot.sound (audited per run by #audit_module); "
          "hand-written model tied to the C++ by the correspondence harness (differential, generator-bounded); ")
 MANIFEST = dict(
-  text=("Theorems (Props/C09.lean) for every finite history of valid CachedMatrix operations, every size and capacity: "
-        "cached/returned/storage-copied entries equal the base matrix under the current permutation, size accounting, "
-        "capacity bound, LRU list = cached lines, two most recent rows survive a third fetch iff capacity allows "
-        "(with a decide-checked witness for the converse); wrapper matrices (regularised, modified, precomputed, 2x2-block, difference, partly precomputed) "
-        "equal the direct kernel formula at the permuted original indices after any flip history. The model (Model/Cache.lean) is tied to the real "
-        "LRUCache/CachedMatrix by an exact line-by-line correspondence over random histories (double and float caches) "
-        "under ASan/UBSan, plus an independent in-harness property oracle."),
-  note=TRUST + "memory safety of the real object code is runtime evidence (ASan/UBSan over the generated histories), the theorem is about the model; "
-       "wrapper matrices: Kernel/Regularized/Modified/Precomputed/Block2x2/Difference/PartlyPrecomputed are modelled and proved for all flip histories over an arbitrary kernel function; "
-       "tied on integer points with the linear kernel; GaussianKernelMatrix is covered by a toleranced in-harness oracle only (not modelled), ExampleModifiedKernelMatrix is not covered; matrix() is only exercised before the first flip.",
-  technique="Lean 4 invariant proof by induction over operation histories + differential correspondence with the C++ (ASan/UBSan)",
-  design="§6 C09")
+  text=("Theorems (Props/C09.lean) about a statement-level model of LRUCache/CachedMatrix<Matrix> (junk-filled fresh buffers, "
+        "bounds-checked accesses, the intrusive-list surgery of swapLineIndices case by case, buffer identities): "
+        "cachedMatrix_refines_spec -- for every base-matrix class whose ranged row writes its entries and whose flip exchanges two variables, every size, "
+        "capacity and finite history of row/rows/entry/flip/setMaxCachedIndex/clear calls that meet the SIZE_CHECK guards in the state they are issued in "
+        "(zero-length requests admitted on cached lines), no access leaves a buffer, the observations are those of (i,j) -> entry0(pi i, pi j), and size accounting, "
+        "capacity bound, LRU list = cached lines (no duplicates), truth of every held value hold in every reachable state; swapLineIndicesIL_eq -- the four list cases of the C++ "
+        "refine the renaming i<->j; smo_three_rows_valid -- rows i, j stay the same buffers with the same contents while a third row is fetched if capacity allows "
+        "(decide-checked witness for the converse); request_beyond_capacity_is_stuck -- below the capacity guard eviction runs out of lines. "
+        "All nine wrapper classes (Kernel, Gaussian, Regularized, Modified, ExampleModified, Difference, Block2x2, Precomputed, PartlyPrecomputed) are modelled with entry, "
+        "ranged row, flip and matrix(); *_lawful / lawful_row_true / *_entry_true prove entry and every row range equal to the direct formula at the permuted original indices "
+        "for all flip histories, and make them instances of the end-to-end theorem. The driver runs this model against the real classes -- a real CachedMatrix on top of every "
+        "wrapper -- line by line (LRU order, line contents, buffer identities; double and float caches) under ASan/UBSan, with an independent in-harness oracle (direct formula, "
+        "accounting, pointer stability)."),
+  note=TRUST + "memory safety of the real object code is runtime evidence (ASan/UBSan over the generated histories); the theorem is that the model's bounds-checked accesses never fail; "
+       "models are hand-written and tied by exact correspondence only (no translator), two source flags (KernelMatrix::matrix honours flips; ExampleModifiedKernelMatrix flips its scaling) are read off the source by the check; "
+       "GaussianKernelMatrix is tied through the squared distance decoded from the returned exp (the exp itself is libm's) plus a toleranced comparison with GaussianRbfKernel; "
+       "ExampleModifiedKernelMatrix is tied with power-of-two scaling coefficients and no missing features; PartlyPrecomputedMatrix has no flips/ranged row and is checked stand-alone; "
+       "buffer identities are observed as serials of distinct data pointers (ASan quarantine assumed); ModifiedKernelMatrix row = entry needs commutativity of the value type's multiplication (hypothesis of modified_lawful); "
+       "open findings K2 (matrix() ignores flips), F-C09-1 (ExampleModified flip leaves scaling in place), F-C09-2/3 (members that cannot be instantiated) are reported as KNOWN-FINDING, model follows the code as written.",
+  technique="Lean 4 refinement proof (statement-level model ⊑ abstract model ⊑ specification) by induction over operation histories + differential correspondence with the C++ (ASan/UBSan) + compile probes",
+  design="§6 C09, §14")
 
 FINISH = dict(level="proof",
-              rule="histories of CachedMatrix ops (row/rows/entry/flip/maxidx/clear) and raw LRUCache ops "
-                   "(get/resize/mark/swap) from one SplitMix64 stream; a case is non-trivial if it evicts, "
-                   "resizes or flips a cached line at least once; distinct = distinct op text")
+              rule="histories of CachedMatrix ops (row/rows/entry/flip/maxidx/clear) over a synthetic base and over every wrapper class, and raw LRUCache ops "
+                   "(get/resize/mark/swap), from one SplitMix64 stream; generators for LRU pressure, multi-line eviction, the SMO three-row pattern with shrinking, "
+                   "all four swapLineIndices cases; what the histories do is measured by running the model (row_requests, swapLineIndices_cases, third_row_after_two, ...); "
+                   "a case is non-trivial if it flips, swaps or resizes at least once; distinct = distinct op text")
+
+
+def cm_ops(r, n, cap, maxlen, pre=""):
+    """client ops of a CachedMatrix of size n, capacity cap >= n (guards of the C++ respected)"""
+    ops = []
+    for _ in range(r.range(1, maxlen)):
+        x = r.below(100)
+        if x < 40:
+            k = r.below(n)
+            ops.append(f"{pre}row {k} {r.range(1, n)}")
+            if r.chance(1, 6):
+                ops.append(f"{pre}row {k} 0")       # length 0: admissible only on a cached line
+        elif x < 58:
+            k = r.below(n)
+            y = r.below(6)
+            if y == 0: s_, e = 0, n                                   # whole row
+            elif y == 1: e = k; s_ = r.range(0, e)                    # end == k
+            elif y == 2: e = min(k + 1, n); s_ = r.range(0, e)        # end == k+1
+            elif y == 3: e = r.range(0, n); s_ = e                    # empty range
+            elif y == 4: e = r.range(1, n); s_ = r.range(1, e)        # start > 0
+            else: e = r.range(0, n); s_ = 0                           # prefix
+            ops.append(f"{pre}rows {k} {s_} {e}")
+        elif x < 80:
+            i = r.below(n)
+            j = r.choice([r.below(n), r.below(n), r.below(n), (i + 1) % n, (i + 1) % n, i])
+            ops.append(f"{pre}flip {i} {j}")
+        elif x < 89:
+            ops.append(f"{pre}maxidx {r.range(0, n)}")     # may cut below the length of cached lines
+        elif x < 95:
+            ops.append(f"{pre}entry {r.below(n)} {r.below(n)}")
+        else:
+            ops.append(f"{pre}clear")                      # in the middle of a history
+    return ops
 
 
 def gen_cm_case(r, maxlen):
-    n = r.choice([1, 2, 3, 4, 5, 6, 8, 12])
+    n = r.choice([1, 1, 2, 3, 4, 5, 6, 8, 12])
     # capacities from the minimum admissible one (n: one full row) upward
     cap = n + r.choice([0, 0, 1, n, n + 1, 2 * n, 3 * n, n * n])
+    return [f"new {n} {cap}"] + cm_ops(r, n, cap, maxlen)
+
+
+def gen_evict_case(r, maxlen):
+    """many short lines, then a long request that has to evict several of them at once; then the pattern again"""
+    n = r.range(4, 9)
+    cap = n + r.choice([0, 1, 2, n // 2])
     ops = [f"new {n} {cap}"]
-    for _ in range(r.range(1, maxlen)):
-        x = r.below(100)
-        if x < 45:
-            ops.append(f"row {r.below(n)} {r.range(1, n)}")
-        elif x < 60:
-            e = r.range(0, n); s = r.range(0, e)
-            if r.chance(2, 3): s = 0          # "prefix" requests
-            ops.append(f"rows {r.below(n)} {s} {e}")
-        elif x < 82:
-            ops.append(f"flip {r.below(n)} {r.below(n)}")
-        elif x < 90:
-            ops.append(f"maxidx {r.range(0, n)}")
-        elif x < 95:
-            ops.append(f"entry {r.below(n)} {r.below(n)}")
-        else:
-            ops.append("clear")
+    for _ in range(r.range(1, 3)):
+        ks = list(range(n)); 
+        for k in ks[:r.range(2, n)]:
+            ops.append(f"row {k} {r.range(1, 2)}")
+        if r.chance(1, 3): ops.append(f"flip {r.below(n)} {r.below(n)}")
+        ops.append(f"row {r.below(n)} {n}")
+        if r.chance(1, 2): ops.append(f"row {r.below(n)} {r.range(n - 1, n)}")
+    return ops
+
+
+def gen_swap_case(r, maxlen):
+    """many cached lines of different lengths, then flips between lines that are adjacent / far apart / at the two
+    ends of the LRU list, with partially cached columns (the four list cases of swapLineIndices)"""
+    n = r.range(3, 8)
+    ops = [f"new {n} {n * n}"]
+    order = list(range(n))
+    for k in order[:r.range(2, n)]:
+        ops.append(f"row {k} {r.range(1, n)}")
+    for _ in range(r.range(2, 12)):
+        x = r.below(10)
+        if x < 7: ops.append(f"flip {r.below(n)} {r.below(n)}")
+        elif x < 9: ops.append(f"row {r.below(n)} {r.range(1, n)}")
+        else: ops.append(f"rows {r.below(n)} 0 {n}")
+    return ops
+
+
+def gen_smo_case(r, maxlen):
+    """the access pattern of an SMO step: rows i, j of the working set, then a third row, repeatedly, with
+    shrinking (maxidx + flips) in between; capacity from 'barely one row' to 'three rows'"""
+    n = r.range(3, 8)
+    cap = r.choice([n, 2 * n - 1, 2 * n, 3 * n - 1, 3 * n, 3 * n + 1])
+    active = n
+    ops = [f"new {n} {cap}"]
+    for _ in range(r.range(2, max(3, maxlen // 4))):
+        i = r.below(active); j = r.below(active); c = r.below(active)
+        ops += [f"row {i} {active}", f"row {j} {active}", f"row {c} {active}"]
+        if active > 2 and r.chance(1, 4):
+            ops.append(f"flip {r.below(active)} {active - 1}"); active -= 1
+            ops.append(f"maxidx {active}")
+        elif r.chance(1, 10):
+            active = n; ops.append(f"maxidx {n}")
     return ops
 
 
@@ -86,58 +161,107 @@ def gen_lru_case(r, maxlen):
     return ops
 
 
-def gen_wrapper_case(r, maxlen):
-    """wrapper matrices over integer points + linear kernel (exact)"""
+WRAPPERS = ["kernel", "reg", "mod", "pre", "block", "diff", "partly", "gauss", "exmod"]
+
+
+def wrapper_head(r, flags, ty=None, known_ok=True):
+    """wflags/wdata/wmk lines for one wrapper; returns (ops, ty, size).  With known_ok the patterns of the
+    open findings (K2, F-C09-1) are avoided unless the source flags say they are repaired."""
     n = r.choice([1, 2, 3, 4, 5, 7])
     d = r.choice([1, 2, 3])
     bs = r.range(1, n + 1)
-    xs = [r.range(0, 16) for _ in range(n * d)]          # coordinate = value - 8
+    ty = ty or r.choice(WRAPPERS)
+    lo, hi = (4, 12) if ty == "gauss" else (0, 16)          # gauss: squared distances stay small
+    xs = [r.range(lo, hi) for _ in range(n * d)]            # coordinate = value - 8
     labels = [r.below(3) for _ in range(n)]
     diag = [r.below(5) for _ in range(n)]
-    ops = ["wdata %d %d %d %s" % (n, d, bs, " ".join(map(str, xs + labels + diag)))]
-    if r.chance(1, 10):
-        fl = " ".join(f"{r.below(n)} {r.below(n)}" for _ in range(r.below(4)))
-        return ops + [f"wgauss {r.range(1, 8)} {r.range(0, 4)} {fl}".strip()]
-    ty = r.choice(["kernel", "reg", "mod", "pre", "pre", "block", "diff", "partly"])
+    ops = ["wflags %d %d" % (flags["k2fixed"], flags["exfixed"]),
+           "wdata %d %d %d %s" % (n, d, bs, " ".join(map(str, xs + labels + diag)))]
     size = n
     if ty == "mod":
         ops.append(f"wmk mod {r.range(0, 3)} {r.range(0, 3)}")
     elif ty == "pre":
-        if r.chance(1, 12) and n >= 2:
-            # K2: precomputation of an already flipped base matrix
+        if n >= 2 and (flags["k2fixed"] or not known_ok) and r.chance(1, 2):
             i = r.below(n); j = (i + 1 + r.below(n - 1)) % n
-            ops.append(f"wmk pre {i} {j}")
+            ops.append(f"wmk pre {i} {j}")        # precomputation of an already flipped base matrix (K2)
         else:
-            ops.append("wmk pre")                 # precomputed at construction (no prior flips)
+            ops.append("wmk pre")
     elif ty == "diff":
         m = r.range(1, 5); size = m
         ops.append("wmk diff " + " ".join(str(r.below(n)) for _ in range(2 * m)))
     elif ty == "partly":
         ops.append(f"wmk partly {r.range(n * 8, n * 8 * (n + 1))}")
+    elif ty == "gauss":
+        ops.append(f"wmk gauss 1 {r.range(4, 7)}")
+    elif ty == "exmod":
+        if flags["exfixed"] or not known_ok:
+            sc = [r.below(3) for _ in range(n)]
+        else:
+            sc = [r.below(3)] * n                 # equal coefficients: flips are harmless (F-C09-1)
+        ops.append("wmk exmod " + " ".join(map(str, sc)))
     else:
         ops.append("wmk " + ty)
         if ty == "block": size = 2 * n
+    return ops, ty, size
+
+
+def gen_wrapper_case(r, maxlen, flags, known_ok=True, ty=None):
+    """wrapper matrices over integer points + linear kernel (exact)"""
+    if ty is None and r.chance(1, 14):
+        ops, _, n = wrapper_head(r, flags, "kernel")
+        fl = " ".join(f"{r.below(n)} {r.below(n)}" for _ in range(r.below(4)))
+        return ops[:2] + [f"wgauss {r.range(1, 8)} {r.range(0, 4)} {fl}".strip()]
+    ops, ty, size = wrapper_head(r, flags, ty, known_ok)
     flipped = False
+    matrix_ok = ty in ("kernel", "reg", "mod", "block", "diff", "gauss") or (ty == "exmod" and flags["exmod_matrix"])
     for _ in range(r.range(1, maxlen)):
         x = r.below(100)
         if x < 35 and ty != "partly":
             ops.append(f"wflip {r.below(size)} {r.below(size)}"); flipped = True
-        elif x < 60:
+        elif x < 55:
             ops.append(f"wentry {r.below(size)} {r.below(size)}")
-        elif x < 90:
-            e = r.range(0, size); st = r.range(0, e)
-            ops.append(f"wrow {r.below(size)} {st} {e}")
-        elif not flipped and ty in ("kernel", "reg", "mod", "block", "diff"):
-            # matrix() of the KernelMatrix-based wrappers ignores flips by construction
-            # (it evaluates the dataset in its original order): only asked before any flip
+        elif x < 88:
+            k = r.below(size)
+            y = r.below(6)
+            if y == 0: st, e = 0, size
+            elif y == 1: e = k; st = r.range(0, e)
+            elif y == 2: e = min(k + 1, size); st = r.range(0, e)
+            elif y == 3: e = r.range(0, size); st = e
+            elif y == 4: e = r.range(1, size); st = r.range(1, e)
+            else: e = r.range(0, size); st = r.range(0, e)
+            ops.append(f"wrow {k} {st} {e}")
+        elif matrix_ok and (not flipped or flags["k2fixed"] or not known_ok or ty in ("block", "diff", "gauss", "exmod")):
+            # matrix() of the KernelMatrix-based wrappers ignores flips as written (K2)
             ops.append("wmatrix")
     return ops
 
 
+def gen_cw_case(r, maxlen, flags, known_ok=True, ty=None):
+    """a CachedMatrix on top of a wrapper over flips: the combination the solvers use"""
+    ty = ty or r.choice([t for t in WRAPPERS if t != "partly"])     # PartlyPrecomputedMatrix has no flips/ranged row
+    ops, ty, size = wrapper_head(r, flags, ty, known_ok)
+    cap = size + r.choice([0, 0, 1, size, 2 * size, size * size])
+    ops.append(f"wcache {cap}")
+    return ops + cm_ops(r, size, cap, maxlen, pre="c")
+
+
+ENTRY_TAGS = {"wrong-entry", "wrong-row", "returned-row-wrong", "storage-row-wrong", "wrong-cached-entry",
+              "matrix-differs-from-entry"}
+
+
 def classify(ops, res):
     kinds = sorted({o.split()[0] for o in ops[1:]})
-    if any(o.startswith("wmk pre ") for o in ops) and not res.crash:
-        return "K2:precomputed-after-flips", f"PrecomputedMatrix built from a flipped KernelMatrix holds the unflipped matrix; ops {ops}"
+    tags = set(re.findall(r"!oracle (\S+)", " ".join(res.oracle)))
+    wty = next((o.split()[1] for o in ops if o.startswith("wmk ")), "")
+    flipped = any(o.split()[0] in ("wflip", "cflip") for o in ops)
+    # the open findings: the model follows the code as written (no mismatch), only the property oracle fails
+    if not res.crash and res.diff_at is None and tags and tags <= ENTRY_TAGS:
+        if any(o.startswith("wmk pre ") for o in ops):
+            return "K2:precomputed-after-flips", f"PrecomputedMatrix built from a flipped KernelMatrix holds the unflipped matrix; ops {ops}"
+        if wty in ("kernel", "reg", "mod") and flipped and "wmatrix" in kinds and tags == {"matrix-differs-from-entry"}:
+            return f"K2:matrix-after-flips:{wty}", f"matrix() of a flipped {wty} wrapper is not the matrix entry() describes; ops {ops}"
+        if wty == "exmod" and flipped:
+            return "F-C09-1:exmod-scaling-not-flipped", f"ExampleModifiedKernelMatrix::flipColumnsAndRows leaves the scaling coefficients in place; ops {ops}"
     if res.crash:
         m = re.search(r"ERROR: AddressSanitizer: (\S+)|runtime error: ([^\n]*)", res.stderr)
         tag = (m.group(1) or m.group(2)) if m else "crash"
@@ -146,6 +270,98 @@ def classify(ops, res):
         m = re.search(r"!oracle (\S+)", res.oracle[0])
         return f"oracle:{m.group(1)}:{'+'.join(kinds)}", f"property oracle failed ({m.group(1)}) on ops {ops}"
     return f"mismatch:{'+'.join(kinds)}", f"model and implementation disagree at line {res.diff_at} of ops {ops}"
+
+
+def source_flags(ctx):
+    """what the model has to know about the source to follow it: is KernelMatrix::matrix evaluated under the
+    current order (K2 repaired), does ExampleModifiedKernelMatrix::flipColumnsAndRows exchange the scaling
+    coefficients (F-C09-1 repaired).  A wrong guess shows up as a model/implementation mismatch."""
+    def body(path, head):
+        src = open(os.path.join(core.REPO, "include/shark/LinAlg", path)).read()
+        i = src.index(head); j = src.index("{", i); depth = 0
+        for k in range(j, len(src)):
+            depth += src[k] == "{"; depth -= src[k] == "}"
+            if depth == 0: return src[j:k + 1]
+        return ""
+    km = body("KernelMatrix.h", "void matrix(")
+    ex = body("ExampleModifiedKernelMatrix.h", "void flipColumnsAndRows")
+    return {"k2fixed": int("entry(" in km or "row(" in km or "x[" in km),
+            "exfixed": int("m_scalingCoefficients" in ex)}
+
+
+def probes(ctx):
+    """compile probes for members nothing else instantiates; result cached by the hash of the headers"""
+    inc = ctx.shark_h()
+    out = {}
+    procs = []
+    for name, key, what in (
+            ("PROBE_EXMOD_MATRIX", "F-C09-2:exmod-matrix-not-instantiable",
+             "ExampleModifiedKernelMatrix::matrix() cannot be instantiated (storage(i,j) on a matrix_expression), hence neither can PrecomputedMatrix<ExampleModifiedKernelMatrix>"),
+            ("PROBE_PARTLY_SIZE", "F-C09-3:partly-size-not-instantiable",
+             "PartlyPrecomputedMatrix::size()/getMaxCacheSize() cannot be instantiated (blas::matrix has no size())")):
+        deps = ["ExampleModifiedKernelMatrix.h", "PartlyPrecomputedMatrix.h", "PrecomputedMatrix.h", "KernelMatrix.h"]
+        h = core.sha("|".join(core.file_sha(os.path.join(core.REPO, "include/shark/LinAlg", d)) for d in deps) +
+                     core.file_sha(os.path.join(core.VERIF, "harness/c09_probe.cpp")) + name)[:16]
+        stamp = os.path.join(core.CACHE, f"c09probe-{h}")
+        if os.path.exists(stamp):
+            out[name] = (open(stamp).read().split("\n", 1), key, what); continue
+        cmd = ["g++", *ctx.BASE_FLAGS, "-fsyntax-only", "-D" + name, "-I" + inc, "-I" + os.path.join(core.REPO, "include"),
+               os.path.join(core.VERIF, "harness/c09_probe.cpp")]
+        import subprocess
+        procs.append((name, key, what, stamp, subprocess.Popen(cmd, stdout=subprocess.PIPE, stderr=subprocess.STDOUT, text=True)))
+    for name, key, what, stamp, p in procs:
+        o, _ = p.communicate()
+        err = "\n".join(l for l in o.splitlines() if "error" in l)[:600]
+        with open(stamp, "w") as f: f.write(f"{p.returncode}\n{err}")
+        out[name] = ([str(p.returncode), err], key, what)
+    res = {}
+    for name, ((rc, err), key, what) in out.items():
+        ok = rc.strip() == "0"
+        res[name] = ok
+        ctx.hist("compile_probes", f"{name}:{'ok' if ok else 'fails'}")
+        if not ok:
+            ctx.violation(key, {"probe": name, "compiler_errors": err, "source": "harness/c09_probe.cpp"}, found_input=True, what=what)
+    return res
+
+
+def measure(ctx, drv, cases, prefix):
+    """run the model alone on the generated cases and count what the histories actually do (evidence)"""
+    import subprocess
+    text = "\n".join(l for c in cases for l in c) + "\n"
+    out = subprocess.run([drv], input=text, capture_output=True, text=True).stdout.splitlines()
+    ops = [l for c in cases for l in c]
+    prev = None
+    for o, l in zip(ops, out):
+        m = re.search(r"cached=(\d+) lru=\[([^\]]*)\].*ids=\[([^\]]*)\]", l)
+        if not m:
+            prev = None; continue
+        cached = int(m.group(1)); lru = [int(x) for x in m.group(2).replace(" ", "").split(",") if x]
+        ids = [int(x) for x in m.group(3).split(",") if x]
+        op = o.split(); name = op[0][len(prefix):] if prefix and op[0].startswith(prefix) else op[0]
+        if prev is not None:
+            pc, plru, pids = prev
+            if name in ("row", "get", "resize"):
+                k = int(op[1])
+                ev = len([i for i in plru if i not in lru])
+                kind = "hit" if k in plru and pids[k] == ids[k] else ("extend" if k in plru else "miss")
+                ctx.hist(prefix + "row_requests", f"{kind}/evicts{min(ev, 3)}{'+' if ev > 3 else ''}")
+                if name == "row" and op[2] == "0": ctx.count(prefix + "zero_length_requests")
+                if name == "row" and len(plru) >= 2 and k not in plru[:2]:
+                    ctx.hist(prefix + "third_row_after_two", "both-kept" if all(i in lru and ids[i] == pids[i] for i in plru[:2]) else "one-lost")
+            elif name in ("flip", "swap"):
+                i, j = int(op[1]), int(op[2])
+                if i == j: kind = "same-index"
+                elif i in plru and j in plru:
+                    d = abs(plru.index(i) - plru.index(j)); first = "i" if plru.index(i) < plru.index(j) else "j"
+                    kind = f"both-cached/{'adjacent' if d == 1 else 'apart'}/{first}-first"
+                elif i in plru or j in plru: kind = "one-cached"
+                else: kind = "none-cached"
+                ctx.hist(prefix + "swapLineIndices_cases", kind)
+            elif name == "maxidx":
+                ctx.hist(prefix + "maxidx", "cuts-cached-line" if any(len(x.split(",")) > int(op[1]) for x in re.findall(r"\[([^\]]+)\]", l.split("lru=")[1].split("]", 1)[1].split(" ids=")[0])) else "no-cut")
+            elif name == "clear":
+                ctx.hist(prefix + "clear", "nonempty" if pc else "empty")
+        prev = (cached, lru, ids)
 
 
 def load_corpus():
@@ -165,24 +381,34 @@ def nontrivial(ops):
 LAKE_TARGETS = ["SharkVerif.Props.C09", "drv_c09"]
 
 
-def build(ctx):
-    return ctx.harness("c09", ["c09.cpp"]), ctx.harness("c09b", ["c09b.cpp"])
+def build(ctx, exmod_matrix=False):
+    return (ctx.harness("c09", ["c09.cpp"]),
+            ctx.harness("c09b", ["c09b.cpp"], flags=(["-DC09_EXMOD_MATRIX"] if exmod_matrix else [])))
 
 
 def run(ctx):
-    ctx.trusted += ["correspondence harness harness/c09.cpp + generator checks/c09.py",
-                    "hand-written model Model/Cache.lean (LRUCache.h, CachedMatrix.h are modelled, not translated)",
-                    "ASan/UBSan runtime for the real code's memory safety (not a theorem)"]
-    ctx.assumptions += ["requests respect the C++ preconditions: 0 < size <= capacity, indices < n, resizeLine only on cached lines",
-                        "base matrix is an arbitrary function under a permutation; kernel evaluation itself is C05's subject"]
+    ctx.trusted += ["correspondence harnesses harness/c09.cpp, harness/c09b.cpp + generator checks/c09.py",
+                    "hand-written models Model/Cache.lean, Model/KernelMatrices.lean (statement-level, tied by exact correspondence, not translated); "
+                    "two source flags (KernelMatrix::matrix honours flips, ExampleModifiedKernelMatrix flips its scaling) are read off the source by checks/c09.py",
+                    "ASan/UBSan runtime for the real code's memory safety (the theorem is about the model's bounds-checked accesses)",
+                    "buffer identities are observed as serial numbers of distinct data pointers (relies on ASan's quarantine: no reuse of a freed buffer within one operation)"]
+    ctx.assumptions += ["requests respect the C++ guards: indices < n, end <= n, request length <= capacity (SIZE_CHECK in ensureFreeMemory; "
+                        "below it the NDEBUG code calls back() on an empty list -- theorem request_beyond_capacity_is_stuck), "
+                        "length 0 only on a cached line (SIZE_CHECK(size > 0) in cacheCreateRow), resizeLine only on cached lines",
+                        "base matrix: any class whose ranged row writes its entries and whose flip exchanges two variables (Lawful); "
+                        "kernel evaluation itself is C05's subject"]
     ctx.prove(["SharkVerif.Props.C09"])
     if not ctx.quick:
         ctx.leanchecker(["SharkVerif.Props.C09"])
-    exe, exeb = build(ctx)
+    flags = source_flags(ctx)
+    pr = probes(ctx)
+    flags["exmod_matrix"] = int(pr.get("PROBE_EXMOD_MATRIX", False))
+    ctx.cov["source_flags"] = flags
+    exe, exeb = build(ctx, bool(flags["exmod_matrix"]))
     drv = ctx.driver("drv_c09")
     if not exe or not exeb or not drv:
         return
-    ncm, nlru, maxlen = (150, 100, 60) if ctx.quick else (1500, 800, 400)
+    ncm, nlru, maxlen = (300, 150, 60) if ctx.quick else (2000, 1000, 400)
     corpus = load_corpus()
     cases = [c for c in corpus if not c[0].startswith("w")]
     ctx.cov["corpus_cases"] = len(corpus)
@@ -190,32 +416,72 @@ def run(ctx):
     cases += [gen_cm_case(r, maxlen) for _ in range(ncm)]
     cases += [gen_lru_case(r, maxlen) for _ in range(nlru)]
     cases += [gen_pressure_case(r, min(maxlen, 40)) for _ in range(ncm // 2)]
+    cases += [gen_evict_case(r, maxlen) for _ in range(ncm // 3)]
+    cases += [gen_smo_case(r, min(maxlen, 80)) for _ in range(ncm // 2)]
+    cases += [gen_swap_case(r, maxlen) for _ in range(ncm // 2)]
     for c in cases:
         for o in c:
             ctx.hist("op_mix", o.split()[0])
         ctx.hist("history_length", min(len(c) // 20 * 20, 400))
+        n, cap = map(int, c[0].split()[1:3])
+        ctx.hist("matrix_size", n)
+        ctx.hist("capacity_in_rows", "minimum(=n)" if cap == n else ("<2 rows" if cap < 2 * n else ("<3 rows" if cap < 3 * n else ">=3 rows")))
     ctx.cov["evaluations"] = len(cases)
     ctx.cov["distinct_nontrivial"] = len({"\n".join(c) for c in cases if nontrivial(c)})
     ctx.sample({"ops": cases[len(cases) // 2][:12]})
+    measure(ctx, drv, cases, "")
     for ty in ("double", "float"):
         core.correspond(ctx, f"K-C09[{ty}]", cases, [exe, ty], [drv], classify)
-    nw = 150 if ctx.quick else 1500
-    wcases = [c for c in corpus if c[0].startswith("w")]
-    wcases += [gen_wrapper_case(r, 25 if ctx.quick else 80) for _ in range(nw)]
-    for c in wcases:
-        ctx.hist("wrapper_types", c[1].split()[1] if c[1].startswith("wmk") else c[1].split()[0])
-        for o in c: ctx.hist("op_mix", o.split()[0])
-    ctx.cov["evaluations"] += len(wcases)
-    ctx.cov["distinct_nontrivial"] += len({"\n".join(c) for c in wcases if any(o.startswith("wflip") for o in c)})
-    ctx.sample({"ops": wcases[0][:8]})
+    # wrapper matrices, alone and under a CachedMatrix
+    nw, wl = (300, 25) if ctx.quick else (2000, 80)
+    wcorpus = [c for c in corpus if c[0].startswith("w")]
+    wcases = []
+    for c in wcorpus:
+        # corpus files carry no flags line: the current source flags are put in front
+        c = [f"wflags {flags['k2fixed']} {flags['exfixed']}"] + [o for o in c if not o.startswith("wflags")]
+        wcases.append(c)
+    is_known = lambda c: (any(o.startswith("wmk pre ") for o in c) and not flags["k2fixed"]) or \
+                         (any(o.startswith("wmk exmod") and len(set(o.split()[2:])) > 1 for o in c) and not flags["exfixed"]) or \
+                         (any(o.startswith("wmatrix") for o in c) and any(o.startswith("wflip") for o in c) and not flags["k2fixed"]
+                          and any(o.startswith(("wmk kernel", "wmk reg", "wmk mod")) for o in c))
+    fcases = [c for c in wcases if is_known(c)]
+    wcases = [c for c in wcases if not is_known(c)]
+    for t in WRAPPERS:                                       # every class on every run
+        wcases.append(gen_wrapper_case(r, wl, flags, ty=t))
+        if t != "partly": wcases.append(gen_cw_case(r, wl, flags, ty=t))
+    wcases += [gen_wrapper_case(r, wl, flags) for _ in range(nw)]
+    wcases += [gen_cw_case(r, 2 * wl, flags) for _ in range(nw)]
+    # the patterns of the open findings, in a small batch of their own (each failing case is shrunk)
+    for t in ("pre", "kernel", "reg", "mod", "exmod"):
+        fcases.append(gen_wrapper_case(r, 12, flags, known_ok=False, ty=t))
+        fcases.append(gen_cw_case(r, 16, flags, known_ok=False, ty=t))
+    for c in wcases + fcases:
+        ty = next((o.split()[1] for o in c if o.startswith("wmk ")), "wgauss")
+        ctx.hist("wrapper_types", ty + ("+cache" if any(o.startswith("wcache") for o in c) else ""))
+        for o in c:
+            ctx.hist("op_mix", o.split()[0])
+            if o.startswith(("wrow", "crows")):
+                k, st, e = map(int, o.split()[1:4])
+                ctx.hist("row_ranges", "empty" if st == e else ("end==k" if e == k else ("end==k+1" if e == k + 1 else ("start>0" if st > 0 else "prefix/whole"))))
+    ctx.cov["evaluations"] += len(wcases) + len(fcases)
+    ctx.cov["distinct_nontrivial"] += len({"\n".join(c) for c in wcases + fcases if any(o.startswith(("wflip", "cflip")) for o in c)})
+    ctx.sample({"ops": wcases[-1][:10]})
+    measure(ctx, drv, [c for c in wcases if any(o.startswith("wcache") for o in c)], "c")
     for ty in ("double", "float"):
-        core.correspond(ctx, f"K-C09-wrappers[{ty}]", wcases, [exeb, ty], [drv], classify, keep_prefix=2)
-    ctx.sample({"theorems": ["cache_entries_true", "returned_row_true", "storage_row_true", "size_accounting",
-                             "two_recent_rows_valid", "two_recent_rows_evicted_when_too_small"]})
+        # KernelMatrix::row is an OpenMP loop: two threads exercise it; passive waiting, the machine is shared
+        env = {"OMP_NUM_THREADS": "2", "OMP_WAIT_POLICY": "passive"}
+        core.correspond(ctx, f"K-C09-wrappers[{ty}]", wcases, [exeb, ty], [drv], classify, keep_prefix=3, env=env)
+        core.correspond(ctx, f"K-C09-open-findings[{ty}]", fcases, [exeb, ty], [drv], classify, keep_prefix=3, env=env)
+    ctx.sample({"theorems": ["cachedMatrix_refines_spec", "swapLineIndicesIL_eq", "smo_three_rows_valid", "cache_entries_true",
+                             "size_accounting", "lawful_row_true", "gaussian_entry_true", "exmod_entry_asCoded"]})
 
 
 def replay(ctx, rep):
-    exe, exeb = build(ctx); drv = ctx.driver("drv_c09")
+    if "probe" in rep:
+        pr = probes(ctx); ok = pr.get(rep["probe"], False)
+        print("OK" if ok else "FAILS: " + rep.get("compiler_errors", "")); return 0 if ok else 1
+    flags = source_flags(ctx); pr = probes(ctx)
+    exe, exeb = build(ctx, bool(pr.get("PROBE_EXMOD_MATRIX", False))); drv = ctx.driver("drv_c09")
     cmd = rep.get("harness_cmd", [exe, "double"])
     cmd[0] = exeb if any(o.startswith("w") for o in rep["ops"]) else exe
     res = core.run_case(ctx, cmd, [drv], rep["ops"])
